@@ -84,7 +84,7 @@ Qed.
 
 Definition op_index (o : op) : option Z :=
   match o with
-  | Read i _ | Assign i _ _ _ | Mutate i _ _ | Register i _ _ _ | AddTrait i _ _ => Some i
+  | Read i _ | Assign i _ _ _ | Mutate i _ _ | Register i _ _ _ | AddTrait i _ _ | Introspect i _ => Some i
   | NewInst _ => None
   end.
 
@@ -100,7 +100,7 @@ Lemma step_shape w o :
       step_inst w (inst_at w (target w o)) o = (ins', r, nx) /\
       step w o = (mkW (w_classes w) (update_nth (Z.to_nat (target w o)) (fun _ => ins') (w_insts w)) nx, r)).
 Proof.
-  destruct o as [i n|i n content scalar|i n x|i n hid via|i n t|c]; [| | | | |left; eexists; reflexivity]; right;
+  destruct o as [i n|i n content scalar|i n x|i n hid via|i n t|i md|c]; [| | | | | |left; eexists; reflexivity]; right;
     cbn [step target op_index];
     (destruct ((i <? 0) || (Z.of_nat (length (w_insts w)) <=? i)) eqn:Ec;
      [left; split; [reflexivity|]; unfold valid_index; intros [H1 H2];
@@ -288,7 +288,7 @@ Qed.
 
 Lemma step_inst_calls_ok w ins o : calls_ok ins -> calls_ok (fst (fst (step_inst w ins o))).
 Proof.
-  intros Hok. destruct o as [i n|i n content scalar|i n x|i n hid via|i n t|c]; cbn [step_inst].
+  intros Hok. destruct o as [i n|i n content scalar|i n x|i n hid via|i n t|i md|c]; cbn [step_inst].
   - (* Read *)
     destruct (alookup n (i_dict ins)) eqn:Ed; [exact Hok|].
     destruct (resolve w ins n) as [t|]; [|exact Hok]. apply materialise_calls_ok; assumption.
@@ -317,6 +317,7 @@ Proof.
   - (* AddTrait *)
     match goal with |- context [if ?c then (w_next w, w_next w + 1) else (0, w_next w)] => destruct c end;
       cbn [fst]; (apply calls_ok_mono; [exact Hok | auto]).
+  - exact Hok.
   - exact Hok.
 Qed.
 
@@ -502,7 +503,7 @@ Section Alloc.
     intros Hb. rewrite inst_oids_split in Hb. apply below_app in Hb. destruct Hb as [Hd Hi].
     assert (Hsame : w_next w <= w_next w /\ below (w_next w) (inst_oids ins)).
     { split; [lia|]. rewrite inst_oids_split. apply below_app. split; assumption. }
-    destruct o as [i n|i n content scalar|i n x|i n hid via|i n t|c]; cbn [step_inst].
+    destruct o as [i n|i n content scalar|i n x|i n hid via|i n t|i md|c]; cbn [step_inst].
     - (* Read *)
       destruct (alookup n (i_dict ins)); [exact Hsame|]. destruct (resolve w ins n) as [t|]; [|exact Hsame].
       pose proof (materialise_below ins n t Hd) as H. destruct (materialise w ins n t) as [[ins' v] nx].
@@ -588,6 +589,7 @@ Section Alloc.
       + split; [lia|]. rewrite inst_oids_split. cbn [i_dict i_itraits]. apply below_app. split; [exact Hd|].
         match goal with |- context [match ?o with Some _ => _ | None => _ end] => destruct o end;
           [|apply Hfire; [lia|]]; (apply below_itraits_aset; [exact H0 | cbn; lia]).
+    - exact Hsame.
     - exact Hsame.
   Qed.
 End Alloc.
@@ -839,7 +841,7 @@ Proof.
     assert (Hadd : addressed w o = true).
     { unfold addressed. destruct o; try reflexivity; apply in_range; exact Hv. }
     rewrite Hadd. cbn [negb]. fold (inst_at w (target w o)).
-    destruct o as [i n|i n content scalar|i n x|i n hid via|i n t|c]; try (exfalso; eapply Hno; reflexivity);
+    destruct o as [i n|i n content scalar|i n x|i n hid via|i n t|i md|c]; try (exfalso; eapply Hno; reflexivity);
       try (cbn [is_default_read is_stored_read is_read negb orb chk app]; exact Hcommon).
     (* Read *)
     pose proof (read_clauses w i n ins' r nx Hwf Hv Hs) as Hr. cbn zeta in Hr. cbn [target] in *.
